@@ -53,6 +53,8 @@ def run(tier, replay=None):
     for fn in core:
         n += mu.check_constructor(prog, fn, 'LanguageIdentifier', allinv, rep, c10.EXEMPT_CTORS)
     rep.floor('core parser result typestate', n, 1)
+    from . import c04
+    c04.canonicalize_shape(prog, rep, only='unic_langid_impl')
     nf = fromstr_delegation(prog, rep, LI, 'LanguageIdentifier')
     rep.floor('FromStr impl', nf, 1)
     rep.explanation = ('from_bytes(s) = core(split(s, {-,_}), allow_extension=false).  (1) the split predicate is exactly {-,_} (byte-set analysis); (2) each of the four subtag validators accepts exactly its '
